@@ -46,12 +46,12 @@ package shovel
 // The partition fetch of load (the function literal handed to errgroup.Go):
 // on success exactly the n blocks m..m+n-1 are appended to the merged result,
 // what was merged before stays in place; on failure nothing is merged.
-//@ func (*Task).load$1 props=C01,C03,C06,C05 ghost=none
+//@ func (*Task).load$1 props=C01,C03,C06,C05,C07 ghost=none
 //@   requires t != nil && n <= 0x100000 && m < 0x7fffffff80000000
 //@   ensures [merged] result == nil ==> len(blocks) == old(len(blocks)) + int(n) && (forall k int :: 0 <= k && k < old(len(blocks)) ==> blocks[k] == old(blocks[k])) && (forall j int :: old(len(blocks)) <= j && j < len(blocks) ==> uint64(blocks[j].Header.Number) == m + uint64(j - old(len(blocks))))
 //@   ensures [failed] result != nil ==> blocks == old(blocks)
 //@   ensures [frame] m == old(m) && n == old(n) && t == old(t)
-//@ func (*Task).load props=C01,C03,C06,C05 ghost=none
+//@ func (*Task).load props=C01,C03,C06,C05,C07 ghost=none
 //@   requires t.batchSize >= 1 && t.batchSize < 0x100000 && t.concurrency >= 1 && t.concurrency < 0x100000
 //@   requires 1 <= limit && limit <= uint64(t.batchSize) && start < 0x7fffffff00000000
 //@   ensures [count] result1 == nil ==> 1 <= len(result0) && uint64(len(result0)) <= limit
